@@ -12,7 +12,7 @@ Fixpoint first_non_zero (b : bytes) : nat :=
 (* the path bits below the sentinel (most significant set bit), least significant first:
    the order in which traverse_path consumes them *)
 Fixpoint bits_lsb_first (n : nat) (v : N) : list bool :=
-  match n with O => [] | S k => N.odd v :: bits_lsb_first k (v / 2) end.
+  match n with O => [] | S k => N.odd v :: bits_lsb_first k (N.div2 v) end.
 
 Definition path_bits (b : bytes) : list bool :=
   let v := be_value b in
